@@ -292,7 +292,7 @@ func (g *jsonGen) val0(d *Desc, ptr string, budget int) {
 		seen := map[string]bool{}
 		if g.jc.Extra && rapid.IntRange(0, 3).Draw(t, "extra1") == 0 {
 			sb.WriteString(`"zz_unknown":`)
-			g.anyJSON(1)
+			g.unknownValue(d, ptr+"/zz_unknown", budget)
 			first = false
 			seen["zz_unknown"] = true
 		}
@@ -302,12 +302,23 @@ func (g *jsonGen) val0(d *Desc, ptr string, budget int) {
 				sb.WriteByte(',')
 			}
 			sb.WriteString(`"zz_unknown2":`)
-			g.anyJSON(1)
+			g.unknownValue(d, ptr+"/zz_unknown2", budget)
 		}
 		sb.WriteByte('}')
 	default:
 		sb.WriteString("null")
 	}
+}
+
+// unknownValue writes the value of a member that no field of d answers to: if
+// d stores such members in a typed fallback map the value is fitted to the
+// element type (so that the text is acceptable), otherwise anything goes.
+func (g *jsonGen) unknownValue(d *Desc, ptr string, budget int) {
+	if fb := Fallback(d); fb != nil && fb.K == "map" && fb.Elem.K != "any" {
+		g.val(fb.Elem, ptr, min(budget-1, 2))
+		return
+	}
+	g.anyJSON(1)
 }
 
 func (g *jsonGen) anyJSON(budget int) {
